@@ -1160,6 +1160,16 @@ def _norm_place(fn, loc, proj, _depth=0):
                     if p0[-1:] == ("&",) and path[:1] == ("*",):
                         return r0, p0[:-1] + path[1:]
                     return r0, p0 + path
+            if rv[0] == "agg" and path[:1] and isinstance(path[0], tuple) and path[0][0] == "f" and isinstance(rv[2], list) \
+                    and isinstance(path[0][1], int) and path[0][1] < len(rv[2]):
+                # a field of a freshly built tuple / struct is the operand it was built from (`match (&a.kind, k)`)
+                op = rv[2][path[0][1]]
+                if op[0] != "k":
+                    r0, p0 = _norm_place(fn, op[1][0], op[1][1], _depth + 1)
+                    rest = path[1:]
+                    if p0[-1:] == ("&",) and rest[:1] == ("*",):
+                        return r0, p0[:-1] + rest[1:]
+                    return r0, p0 + rest
     return loc, path
 
 
@@ -1249,3 +1259,35 @@ def correlated_reach(fn, start, avoid_blocks=(), avoid_edges=(), max_states=2000
                     return fn.reachable(start, avoid_blocks=avoid_blocks, avoid_edges=avoid_edges)
                 dq.append(stt)
     return {b for b, _ in seen}
+
+
+def answer_implies(p, h, answer, reqs):
+    """for a bool-returning workspace predicate h: on every path on which h answers `answer`, each requirement holds.
+    A requirement is a list of alternatives (fragment, value): some decision whose key contains the fragment has that value
+    (e.g. [("is_none(arg1.attrs)", True), ("is_some(arg1.attrs)", False)])."""
+    from absint import explore, vkey, TooManyPaths
+    try:
+        paths = explore(h, pure=lambda c: True, max_paths=2000)
+    except TooManyPaths:
+        return False
+    seen = False
+    want = "true" if answer else "false"
+    for path in paths:
+        if path.end != "ret" or path.ret is None:
+            if path.end == "loop":
+                return False
+            continue
+        ret = vkey(path.ret)
+        if ret == ("false" if answer else "true"):
+            continue
+        decs = list(path.decisions)
+        if ret != want:
+            # the answer is the value of a last test: `a && b` returns b on the path where a held
+            neg = ret.startswith("!")
+            core = ret[1:] if neg else ret
+            decs.append((core, (not answer) if neg else answer))
+        seen = True
+        for alts in reqs:
+            if not any(fr in k and v is val for k, v in decs for fr, val in alts):
+                return False
+    return seen
